@@ -302,8 +302,10 @@ impl AssemblyCode {
                 match &second {
                     None => return removed_instructions,
                     Some(AsmLine::Instruction(_)) => break,
-                    Some(AsmLine::Label(_)) => {
-                        // If this is a label, restart
+                    Some(AsmLine::Label(_)) | Some(AsmLine::Inline(_, _)) => {
+                        // If this is a label, restart. Inline assembly is code as well: the instructions
+                        // before and after it are not neighbours (a JMP over it must stay), and it may
+                        // change any register and the flags
                         first = iter.next();
                         loop {
                             match &first {
@@ -334,14 +336,6 @@ impl AssemblyCode {
                         } else {
                             unreachable!();
                         }
-                    }
-                    Some(AsmLine::Inline(_, _)) => {
-                        // Inline assembly may change any register and the flags
-                        accumulator = None;
-                        x_register = None;
-                        y_register = None;
-                        flags = FlagsState::Unknown;
-                        second = iter.next();
                     }
                     _ => second = iter.next(),
                 }
